@@ -1,0 +1,94 @@
+// Licensed to Elasticsearch B.V. under one or more contributor
+// license agreements. See the NOTICE file distributed with
+// this work for additional information regarding copyright
+// ownership. Elasticsearch B.V. licenses this file to you under
+// the Apache License, Version 2.0 (the "License"); you may
+// not use this file except in compliance with the License.
+// You may obtain a copy of the License at
+//
+//     http://www.apache.org/licenses/LICENSE-2.0
+//
+// Unless required by applicable law or agreed to in writing,
+// software distributed under the License is distributed on an
+// "AS IS" BASIS, WITHOUT WARRANTIES OR CONDITIONS OF ANY
+// KIND, either express or implied.  See the License for the
+// specific language governing permissions and limitations
+// under the License.
+
+//go:build verif
+
+package rule
+
+// VerifComparison is one entry of the inter-field comparison table.
+type VerifComparison struct {
+	LHS, RHS string
+	Code     uint32
+}
+
+// VerifTables is a read-only copy of the package's name/number tables. It is
+// only present in builds with the "verif" tag.
+type VerifTables struct {
+	Fields      map[string]uint32
+	Operators   map[string]uint32
+	Comparisons []VerifComparison
+
+	ReverseFields      map[uint32]string
+	ReverseOperators   map[uint32]string
+	ReverseComparisons map[uint32][2]string
+	ReverseArch        map[string]uint32
+	ReverseSyscall     map[string]map[string]int
+}
+
+// VerifExportTables copies the forward and reverse tables.
+func VerifExportTables() VerifTables {
+	t := VerifTables{
+		Fields:             map[string]uint32{},
+		Operators:          map[string]uint32{},
+		ReverseFields:      map[uint32]string{},
+		ReverseOperators:   map[uint32]string{},
+		ReverseComparisons: map[uint32][2]string{},
+		ReverseArch:        map[string]uint32{},
+		ReverseSyscall:     map[string]map[string]int{},
+	}
+	fieldName := func(f field) string {
+		for n, v := range fieldsTable {
+			if v == f {
+				return n
+			}
+		}
+		return ""
+	}
+	for n, v := range fieldsTable {
+		t.Fields[n] = uint32(v)
+	}
+	for n, v := range operatorsTable {
+		t.Operators[n] = uint32(v)
+	}
+	for lhs, tbl := range comparisonsTable {
+		for rhs, c := range tbl {
+			t.Comparisons = append(t.Comparisons, VerifComparison{
+				LHS: fieldName(lhs), RHS: fieldName(rhs), Code: uint32(c),
+			})
+		}
+	}
+	for v, n := range reverseFieldsTable {
+		t.ReverseFields[uint32(v)] = n
+	}
+	for v, n := range reverseOperatorsTable {
+		t.ReverseOperators[uint32(v)] = n
+	}
+	for c, p := range reverseComparisonsTable {
+		t.ReverseComparisons[uint32(c)] = [2]string{fieldName(p[0]), fieldName(p[1])}
+	}
+	for n, v := range reverseArch {
+		t.ReverseArch[n] = v
+	}
+	for arch, tbl := range reverseSyscall {
+		m := make(map[string]int, len(tbl))
+		for n, v := range tbl {
+			m[n] = v
+		}
+		t.ReverseSyscall[arch] = m
+	}
+	return t
+}
